@@ -988,7 +988,7 @@ func lemmaLastEncodePrefix(opts []Option, o Option, i int) {
 // The massive (pipeline) implementations are not under contract (C10, C11 are not applicable to this technique).
 //@ func gtree.treePipeline.outputProgrammably
 //@   requires ok: pipelineTreeOK(t, cfg) && root != nil && root.hierarchy == 1
-//@   modifies Node.brnch.value, Node.brnch.path, out, wfail, defaultGrowSpreaderSimple.w, defaultSpreaderSimple.w, counter.n, encTrace, encoders, spText, errSent, ctxCancelled, splSent, ctxDoneSeen, errRecv
+//@   modifies Node.brnch.value, Node.brnch.path, out, wfail, defaultGrowSpreaderSimple.w, defaultSpreaderSimple.w, counter.n, encTrace, encoders, spText, errSent, ctxCancelled, splSent, splSharp, splCutOK, ctxDoneSeen, errRecv
 //@   ensures reported [C14]: result == nil ==> errRecv == old(errRecv)
 //@   ensures dryfs [C09]: fsOps == old(fsOps) && fsFailed == old(fsFailed)
 //@   carries rootStream: rootChan
@@ -996,7 +996,7 @@ func lemmaLastEncodePrefix(opts []Option, o Option, i int) {
 //@   requires nn: root != nil && root.hierarchy == 1
 //@ func gtree.treePipeline.walkProgrammably
 //@   requires ok: pipelineTreeOK(t, cfg) && root != nil && root.hierarchy == 1
-//@   modifies Node.brnch.value, Node.brnch.path, cbTrace, cbFailed, cbLastErr, cbAfterFail, errSent, ctxCancelled, splSent, ctxDoneSeen, errRecv
+//@   modifies Node.brnch.value, Node.brnch.path, cbTrace, cbFailed, cbLastErr, cbAfterFail, errSent, ctxCancelled, splSent, splSharp, splCutOK, ctxDoneSeen, errRecv
 //@   ensures reported [C14]: result == nil ==> errRecv == old(errRecv)
 //@   param callback follows walkCallback
 //@   carries rootStream: rootChan
@@ -1004,7 +1004,7 @@ func lemmaLastEncodePrefix(opts []Option, o Option, i int) {
 //@   requires nn: root != nil && root.hierarchy == 1
 
 //@ contract fromRootOutput
-//@   modifies Node.brnch.value, Node.brnch.path, out, wfail, defaultGrowSpreaderSimple.w, defaultSpreaderSimple.w, counter.n, encTrace, encoders, lastConfig, spText, errSent, ctxCancelled, splSent, ctxDoneSeen, errRecv
+//@   modifies Node.brnch.value, Node.brnch.path, out, wfail, defaultGrowSpreaderSimple.w, defaultSpreaderSimple.w, counter.n, encTrace, encoders, lastConfig, spText, errSent, ctxCancelled, splSent, splSharp, splCutOK, ctxDoneSeen, errRecv
 //@   ghostset lastConfig := cfg
 //@   ensures nilnode [C03]: root == nil ==> result == ErrNilNode && out == old(out) && wfail == old(wfail)
 //@   ensures notroot [C03]: root != nil && root.hierarchy != 1 ==> result == ErrNotRoot && out == old(out) && wfail == old(wfail)
@@ -1014,7 +1014,7 @@ func lemmaLastEncodePrefix(opts []Option, o Option, i int) {
 //@ contract fromRootWalk
 //@   param callback follows walkCallback
 //@   requires live: !cbFailed
-//@   modifies Node.brnch.value, Node.brnch.path, cbTrace, cbFailed, cbLastErr, cbAfterFail, counter.n, lastConfig, errSent, ctxCancelled, splSent, ctxDoneSeen, errRecv
+//@   modifies Node.brnch.value, Node.brnch.path, cbTrace, cbFailed, cbLastErr, cbAfterFail, counter.n, lastConfig, errSent, ctxCancelled, splSent, splSharp, splCutOK, ctxDoneSeen, errRecv
 //@   ghostset lastConfig := cfg
 //@   ensures nilnode [C03]: root == nil ==> result == ErrNilNode && cbTrace == old(cbTrace)
 //@   ensures notroot [C03]: root != nil && root.hierarchy != 1 ==> result == ErrNotRoot && cbTrace == old(cbTrace)
@@ -1154,17 +1154,17 @@ func lemmaRawAllIsRenderAll(last, mid branchFormat, roots []*Node, i int) {
 
 //@ func gtree.treePipeline.output
 //@   requires ok: pipelineTreeOK(t, cfg)
-//@   modifies Node.children, Node.parent, Node.brnch.value, Node.brnch.path, list.List.view, list.Element.backOf, counter.n, bufio.Scanner.pos, bufio.Scanner.failed, markdown.Parser.isSharpRoot, markdown.Parser.spaces, markdown.Parser.sep, out, wfail, defaultSpreaderSimple.w, encTrace, encoders, lastForest, lnNodes, rsRoots, rsFailed, rsStopped, rsErr, gsRoots, gsFailed, gsStopped, gsErr, spRoots, spText, esFailed, errSent, ctxCancelled, splSent, ctxDoneSeen, errRecv
+//@   modifies Node.children, Node.parent, Node.brnch.value, Node.brnch.path, list.List.view, list.Element.backOf, counter.n, bufio.Scanner.pos, bufio.Scanner.failed, markdown.Parser.isSharpRoot, markdown.Parser.spaces, markdown.Parser.sep, out, wfail, defaultSpreaderSimple.w, encTrace, encoders, lastForest, lnNodes, rsRoots, rsFailed, rsStopped, rsErr, gsRoots, gsFailed, gsStopped, gsErr, spRoots, spText, esFailed, errSent, ctxCancelled, splSent, splSharp, splCutOK, ctxDoneSeen, errRecv
 //@   ensures reported [C14]: result == nil ==> errRecv == old(errRecv)
 //@   ensures dryfs [C09]: fsOps == old(fsOps) && fsFailed == old(fsFailed)
 //@ func gtree.treePipeline.walk
 //@   requires ok: pipelineTreeOK(t, cfg)
-//@   modifies Node.children, Node.parent, Node.brnch.value, Node.brnch.path, list.List.view, list.Element.backOf, counter.n, bufio.Scanner.pos, bufio.Scanner.failed, markdown.Parser.isSharpRoot, markdown.Parser.spaces, markdown.Parser.sep, cbTrace, cbFailed, cbLastErr, cbAfterFail, lastForest, lnNodes, errSent, ctxCancelled, splSent, ctxDoneSeen, errRecv
+//@   modifies Node.children, Node.parent, Node.brnch.value, Node.brnch.path, list.List.view, list.Element.backOf, counter.n, bufio.Scanner.pos, bufio.Scanner.failed, markdown.Parser.isSharpRoot, markdown.Parser.spaces, markdown.Parser.sep, cbTrace, cbFailed, cbLastErr, cbAfterFail, lastForest, lnNodes, errSent, ctxCancelled, splSent, splSharp, splCutOK, ctxDoneSeen, errRecv
 //@   ensures reported [C14]: result == nil ==> errRecv == old(errRecv)
 //@   param callback follows walkCallback
 
 //@ contract fromMarkdownOutput
-//@   modifies Node.children, Node.parent, Node.brnch.value, Node.brnch.path, list.List.view, list.Element.backOf, counter.n, bufio.Scanner.pos, bufio.Scanner.failed, markdown.Parser.isSharpRoot, markdown.Parser.spaces, markdown.Parser.sep, out, wfail, defaultSpreaderSimple.w, encTrace, encoders, libWriter, libFailed, libCalls, lastCtxLive, lastConfig, lastForest, lnNodes, rsRoots, rsFailed, rsStopped, rsErr, gsRoots, gsFailed, gsStopped, gsErr, spRoots, spText, esFailed, errSent, ctxCancelled, splSent, ctxDoneSeen, errRecv
+//@   modifies Node.children, Node.parent, Node.brnch.value, Node.brnch.path, list.List.view, list.Element.backOf, counter.n, bufio.Scanner.pos, bufio.Scanner.failed, markdown.Parser.isSharpRoot, markdown.Parser.spaces, markdown.Parser.sep, out, wfail, defaultSpreaderSimple.w, encTrace, encoders, libWriter, libFailed, libCalls, lastCtxLive, lastConfig, lastForest, lnNodes, rsRoots, rsFailed, rsStopped, rsErr, gsRoots, gsFailed, gsStopped, gsErr, spRoots, spText, esFailed, errSent, ctxCancelled, splSent, splSharp, splCutOK, ctxDoneSeen, errRecv
 //@   ghostset lastConfig := cfg
 //@   ghostset libWriter := w
 //@   ghostset libFailed := old(libFailed) || result != nil
@@ -1178,7 +1178,7 @@ func lemmaRawAllIsRenderAll(last, mid branchFormat, roots []*Node, i int) {
 //@ contract fromMarkdownWalk
 //@   param callback follows walkCallback
 //@   requires live: !cbFailed
-//@   modifies Node.children, Node.parent, Node.brnch.value, Node.brnch.path, list.List.view, list.Element.backOf, counter.n, bufio.Scanner.pos, bufio.Scanner.failed, markdown.Parser.isSharpRoot, markdown.Parser.spaces, markdown.Parser.sep, cbTrace, cbFailed, cbLastErr, cbAfterFail, lastConfig, lastForest, lnNodes, errSent, ctxCancelled, splSent, ctxDoneSeen, errRecv
+//@   modifies Node.children, Node.parent, Node.brnch.value, Node.brnch.path, list.List.view, list.Element.backOf, counter.n, bufio.Scanner.pos, bufio.Scanner.failed, markdown.Parser.isSharpRoot, markdown.Parser.spaces, markdown.Parser.sep, cbTrace, cbFailed, cbLastErr, cbAfterFail, lastConfig, lastForest, lnNodes, errSent, ctxCancelled, splSent, splSharp, splCutOK, ctxDoneSeen, errRecv
 //@   ghostset lastConfig := cfg
 //@   ensures walk [C05,C03,C12]: fresh(lastConfig) && (!lastConfig.massive ==> cbAfterFail == old(cbAfterFail) && (result == nil ==> !cbFailed && (allRoots(lastForest) && cbTrace == old(cbTrace) ++ specPreorderAll(lastForest, len(lastForest)))) && (cbFailed ==> result == cbLastErr && result != nil))
 //@ applies fromMarkdownWalk to gtree.WalkFromMarkdown, gtree.Walk
@@ -1249,6 +1249,7 @@ func lemmaRawAllIsRenderAll(last, mid branchFormat, roots []*Node, i int) {
 // sp: the spreader, w: the writer it was given, g: the grower whose stream it consumes (nil: none)
 //@ stream errStream(e)
 //@   subject sp, w, g *defaultGrowerSimple
+//@   requires once [C14,C12]: !esFailed
 //@   requires err [C14]: e != nil
 //@   requires fwd [C14]: (!isType(sp, formattedSpreaderSimple) && gsFailed ==> e == gsErr) && (isType(sp, formattedSpreaderSimple) && rsFailed ==> e == rsErr)
 //@   records esFailed := true
@@ -1491,11 +1492,11 @@ func fsExistsAt(p string) bool { _, err := os.Stat(p); return !os.IsNotExist(err
 
 //@ func gtree.treePipeline.mkdir
 //@   requires ok: pipelineTreeOK(t, cfg)
-//@   modifies Node.children, Node.parent, Node.brnch.value, Node.brnch.path, list.List.view, list.Element.backOf, counter.n, bufio.Scanner.pos, bufio.Scanner.failed, markdown.Parser.isSharpRoot, markdown.Parser.spaces, markdown.Parser.sep, fsOps, fsFailed, defaultGrowerSimple.enabledValidation, lastForest, lnNodes, errSent, ctxCancelled, splSent, ctxDoneSeen, errRecv
+//@   modifies Node.children, Node.parent, Node.brnch.value, Node.brnch.path, list.List.view, list.Element.backOf, counter.n, bufio.Scanner.pos, bufio.Scanner.failed, markdown.Parser.isSharpRoot, markdown.Parser.spaces, markdown.Parser.sep, fsOps, fsFailed, defaultGrowerSimple.enabledValidation, lastForest, lnNodes, errSent, ctxCancelled, splSent, splSharp, splCutOK, ctxDoneSeen, errRecv
 //@   ensures reported [C14]: result == nil ==> errRecv == old(errRecv)
 //@ func gtree.treePipeline.mkdirProgrammably
 //@   requires ok: pipelineTreeOK(t, cfg) && root != nil && root.hierarchy == 1
-//@   modifies Node.brnch.value, Node.brnch.path, fsOps, fsFailed, defaultGrowerSimple.enabledValidation, out, wfail, counter.n, spText, errSent, ctxCancelled, splSent, ctxDoneSeen, errRecv
+//@   modifies Node.brnch.value, Node.brnch.path, fsOps, fsFailed, defaultGrowerSimple.enabledValidation, out, wfail, counter.n, spText, errSent, ctxCancelled, splSent, splSharp, splCutOK, ctxDoneSeen, errRecv
 //@   ensures reported [C14]: result == nil ==> errRecv == old(errRecv)
 //@   ensures dryrun [C09]: cfg.dryrun ==> fsOps == old(fsOps) && fsFailed == old(fsFailed)
 //@   carries rootStream: rootChan
@@ -1503,7 +1504,7 @@ func fsExistsAt(p string) bool { _, err := os.Stat(p); return !os.IsNotExist(err
 //@   requires nn: root != nil && root.hierarchy == 1
 
 //@ contract fromMarkdownMkdir
-//@   modifies Node.children, Node.parent, Node.brnch.value, Node.brnch.path, list.List.view, list.Element.backOf, counter.n, bufio.Scanner.pos, bufio.Scanner.failed, markdown.Parser.isSharpRoot, markdown.Parser.spaces, markdown.Parser.sep, fsOps, fsFailed, defaultGrowerSimple.enabledValidation, libFailed, libCalls, lastCtxLive, lastConfig, lastForest, lnNodes, errSent, ctxCancelled, splSent, ctxDoneSeen, errRecv
+//@   modifies Node.children, Node.parent, Node.brnch.value, Node.brnch.path, list.List.view, list.Element.backOf, counter.n, bufio.Scanner.pos, bufio.Scanner.failed, markdown.Parser.isSharpRoot, markdown.Parser.spaces, markdown.Parser.sep, fsOps, fsFailed, defaultGrowerSimple.enabledValidation, libFailed, libCalls, lastCtxLive, lastConfig, lastForest, lnNodes, errSent, ctxCancelled, splSent, splSharp, splCutOK, ctxDoneSeen, errRecv
 //@   ghostset lastConfig := cfg
 //@   ghostset libFailed := old(libFailed) || result != nil
 //@   ghostset libCalls := old(libCalls) + 1
@@ -1514,7 +1515,7 @@ func fsExistsAt(p string) bool { _, err := os.Stat(p); return !os.IsNotExist(err
 //@ applies fromMarkdownMkdir to gtree.MkdirFromMarkdown, gtree.Mkdir
 
 //@ contract fromRootMkdir
-//@   modifies Node.brnch.value, Node.brnch.path, fsOps, fsFailed, defaultGrowerSimple.enabledValidation, out, wfail, counter.n, lastConfig, spText, errSent, ctxCancelled, splSent, ctxDoneSeen, errRecv
+//@   modifies Node.brnch.value, Node.brnch.path, fsOps, fsFailed, defaultGrowerSimple.enabledValidation, out, wfail, counter.n, lastConfig, spText, errSent, ctxCancelled, splSent, splSharp, splCutOK, ctxDoneSeen, errRecv
 //@   ghostset lastConfig := cfg
 //@   ensures nilnode [C03]: root == nil ==> result == ErrNilNode && fsOps == old(fsOps)
 //@   ensures notroot [C03]: root != nil && root.hierarchy != 1 ==> result == ErrNotRoot && fsOps == old(fsOps)
@@ -1676,12 +1677,12 @@ func specVerifyText(strict bool, extra, noExists []string) string {
 
 //@ func gtree.treePipeline.verify
 //@   requires ok: pipelineTreeOK(t, cfg)
-//@   modifies Node.children, Node.parent, Node.brnch.value, Node.brnch.path, list.List.view, list.Element.backOf, counter.n, bufio.Scanner.pos, bufio.Scanner.failed, markdown.Parser.isSharpRoot, markdown.Parser.spaces, markdown.Parser.sep, defaultGrowerSimple.enabledValidation, maps, lastForest, lnNodes, errSent, ctxCancelled, splSent, ctxDoneSeen, errRecv
+//@   modifies Node.children, Node.parent, Node.brnch.value, Node.brnch.path, list.List.view, list.Element.backOf, counter.n, bufio.Scanner.pos, bufio.Scanner.failed, markdown.Parser.isSharpRoot, markdown.Parser.spaces, markdown.Parser.sep, defaultGrowerSimple.enabledValidation, maps, lastForest, lnNodes, errSent, ctxCancelled, splSent, splSharp, splCutOK, ctxDoneSeen, errRecv
 //@   ensures reported [C14]: result == nil ==> errRecv == old(errRecv)
 //@   ensures fsframe [C08]: fsOps == old(fsOps) && fsFailed == old(fsFailed)
 //@ func gtree.treePipeline.verifyProgrammably
 //@   requires ok: pipelineTreeOK(t, cfg) && root != nil && root.hierarchy == 1
-//@   modifies Node.brnch.value, Node.brnch.path, defaultGrowerSimple.enabledValidation, maps, errSent, ctxCancelled, splSent, ctxDoneSeen, errRecv
+//@   modifies Node.brnch.value, Node.brnch.path, defaultGrowerSimple.enabledValidation, maps, errSent, ctxCancelled, splSent, splSharp, splCutOK, ctxDoneSeen, errRecv
 //@   ensures reported [C14]: result == nil ==> errRecv == old(errRecv)
 //@   ensures fsframe [C08]: fsOps == old(fsOps) && fsFailed == old(fsFailed)
 //@   carries rootStream: rootChan
@@ -1689,7 +1690,7 @@ func specVerifyText(strict bool, extra, noExists []string) string {
 //@   requires nn: root != nil && root.hierarchy == 1
 
 //@ contract fromMarkdownVerify
-//@   modifies Node.children, Node.parent, Node.brnch.value, Node.brnch.path, list.List.view, list.Element.backOf, counter.n, bufio.Scanner.pos, bufio.Scanner.failed, markdown.Parser.isSharpRoot, markdown.Parser.spaces, markdown.Parser.sep, defaultGrowerSimple.enabledValidation, maps, libFailed, libCalls, lastCtxLive, lastConfig, lastForest, lnNodes, errSent, ctxCancelled, splSent, ctxDoneSeen, errRecv
+//@   modifies Node.children, Node.parent, Node.brnch.value, Node.brnch.path, list.List.view, list.Element.backOf, counter.n, bufio.Scanner.pos, bufio.Scanner.failed, markdown.Parser.isSharpRoot, markdown.Parser.spaces, markdown.Parser.sep, defaultGrowerSimple.enabledValidation, maps, libFailed, libCalls, lastCtxLive, lastConfig, lastForest, lnNodes, errSent, ctxCancelled, splSent, splSharp, splCutOK, ctxDoneSeen, errRecv
 //@   ghostset lastConfig := cfg
 //@   ghostset libFailed := old(libFailed) || result != nil
 //@   ghostset libCalls := old(libCalls) + 1
@@ -1699,7 +1700,7 @@ func specVerifyText(strict bool, extra, noExists []string) string {
 //@ applies fromMarkdownVerify to gtree.VerifyFromMarkdown, gtree.Verify
 
 //@ contract fromRootVerify
-//@   modifies Node.brnch.value, Node.brnch.path, defaultGrowerSimple.enabledValidation, maps, counter.n, lastConfig, errSent, ctxCancelled, splSent, ctxDoneSeen, errRecv
+//@   modifies Node.brnch.value, Node.brnch.path, defaultGrowerSimple.enabledValidation, maps, counter.n, lastConfig, errSent, ctxCancelled, splSent, splSharp, splCutOK, ctxDoneSeen, errRecv
 //@   ensures nilnode [C03]: root == nil ==> result == ErrNilNode
 //@   ensures notroot [C03]: root != nil && root.hierarchy != 1 ==> result == ErrNotRoot
 //@   ensures fsframe [C08,C12]: fsOps == old(fsOps) && fsFailed == old(fsFailed)
